@@ -57,7 +57,8 @@ ASSUMPTIONS = [
 EXPECTED_PROBES = ["probe.step_completed", "probe.breakpoint_hit", "probe.pause_from_hook", "probe.reset_rerun",
                    "probe.step_hit_end_of_run", "probe.non_one_shot_refired", "probe.peek_or_find",
                    "probe.reset_with_source", "probe.metric_breakpoint_on_zero", "probe.breakpoint_added_from_hook",
-                   "probe.reset_after_fast_loop_run", "probe.paused_at_final_delivery"]
+                   "probe.reset_after_fast_loop_run", "probe.paused_at_final_delivery",
+                   "probe.reset_from_a_midrun_pause"]
 SHRINK_SKIP = ("n_entities", "n_kinds")
 
 
@@ -71,6 +72,8 @@ def gen(rng, tier):
     prog["stateless"] = stateless
     if stateless and rng.random() < 0.4:
         prog["post_run_cancel"] = [rng.randrange(1000) for _ in range(rng.randint(1, 3))]
+    if stateless and rng.random() < 0.4:
+        prog["reset_midrun"] = rng.choice([1, 2, 3, 5, 8, 13, 21])
     if stateless and rng.random() < 0.5:
         prog["reset_first_fast"] = True
         if prog["end"] is None and rng.random() < 0.7:      # the fast loop needs an explicit end
@@ -518,6 +521,7 @@ def run(sc):
             r = _reset_check(sc)
             counters["probe.reset_rerun"] = 1
             counters["probe.reset_with_source"] = int(bool(sc.get("source")))
+            counters["probe.reset_from_a_midrun_pause"] = int(bool(sc.pop("_midrun_paused", False)))
             counters["probe.reset_after_fast_loop_run"] = int(bool(sc.get("reset_first_fast")) and sc.get("end") is not None)
             if r:
                 sig, msg = r
@@ -578,6 +582,24 @@ def _reset_check(sc):
         if pr._created:
             pr._created[i % len(pr._created)].cancel()
     sim.control.reset()
+    mid = sc.get("reset_midrun")
+    if mid:
+        # a second run that is abandoned half-way: paused after `mid` deliveries and reset from there
+        n = [0]
+
+        def until_mid(ev):
+            n[0] += 1
+            if n[0] == mid:
+                sim.control.pause()
+
+        hid = sim.control.on_event(until_mid)
+        sim.run()
+        sim.control.remove_hook(hid)
+        sc["_midrun_paused"] = bool(sim.control.is_paused)
+        del tl[:]
+        pr.log.clear()
+        del pr.tlog[:]
+        sim.control.reset()
     sim.control.pause()
     sim.run()
     if sim.control.is_paused:
